@@ -215,7 +215,7 @@ def chunk(payload):
 RULE = ("problems with valid LP names x bases {returned by QSexact_solver / mpq_QSopt_primal/dual; random type-consistent bases incl. ranged rows at upper and free "
         "columns; the problem's own basis written with B=NULL}: written with QSwrite_basis (plain/.gz/.bz2), read back with QSread_basis / "
         "QSread_and_load_basis and compared (same basic set, same at-upper set, free<->lower allowed for free columns), exact dual status and dual objective of "
-        "both bases compared; own-basis cases continue with solves, tableau queries and a second write/read; non-trivial = a basis was available; distinct = hash(script)")
+        "both bases compared; own-basis cases continue with solves, tableau queries and a second write/read; `reload` cases: zero objective (every primal-feasible basis optimal), basis A solved and written, problem moved to basis B with another solution, file loaded back (QSread_and_load_basis or QSread_basis+QSload_basis) and solved: the solution must be A's; own-basis mode also runs the get/load basis+row-norms round trip; non-trivial = a basis was available; distinct = hash(script)")
 
 
 def run_check(prop, tier, seed):
